@@ -28,6 +28,10 @@ pub enum TagSpec {
 	Keyboard,
 	Process(u32),
 	Signal(i32),
+	/// `Signal::Custom(n)` constructed directly (also for numbers that have a first-class variant)
+	CustomSignal(i32),
+	/// completion by `Signal::Custom(n)` constructed directly
+	ExitCustomSignal(i32),
 	/// first-class signal by index 0..7
 	NamedSignal(u8),
 	CompletionNone,
@@ -171,6 +175,11 @@ fn realise(t: &TagSpec) -> (Tag, Value) {
 			let s = Signal::from(*n);
 			(Tag::Signal(s), json!({"kind": "signal", "signal": signal_json(s)}))
 		}
+		TagSpec::CustomSignal(n) => (Tag::Signal(Signal::Custom(*n)), json!({"kind": "signal", "signal": n})),
+		TagSpec::ExitCustomSignal(n) => (
+			Tag::ProcessCompletion(Some(ProcessEnd::ExitSignal(Signal::Custom(*n)))),
+			json!({"kind": "completion", "disposition": "signal", "signal": n}),
+		),
 		TagSpec::NamedSignal(i) => {
 			let (s, name) = NAMED[*i as usize % NAMED.len()];
 			(Tag::Signal(s), json!({"kind": "signal", "signal": name}))
@@ -231,7 +240,7 @@ pub fn run_event(spec: &EventSpec) -> Outcome {
 	let special = spec
 		.tags
 		.iter()
-		.any(|t| matches!(t, TagSpec::Fs(_) | TagSpec::ExitError(_) | TagSpec::ExitSignal(_) | TagSpec::ExitStop(_) | TagSpec::Exception(_) | TagSpec::Success | TagSpec::Continued | TagSpec::CompletionNone));
+		.any(|t| matches!(t, TagSpec::Fs(_) | TagSpec::ExitCustomSignal(_) | TagSpec::ExitError(_) | TagSpec::ExitSignal(_) | TagSpec::ExitStop(_) | TagSpec::Exception(_) | TagSpec::Success | TagSpec::Continued | TagSpec::CompletionNone));
 	o.nontrivial = (spec.tags.len() >= 3 && kinds.len() >= 2) || special;
 	if special {
 		o.label("fs-or-completion");
@@ -547,6 +556,8 @@ fn tag_strategy() -> BoxedStrategy<TagSpec> {
 		2 => any::<u32>().prop_map(TagSpec::Process),
 		2 => prop_oneof![any::<i32>(), -2i32..70].prop_map(TagSpec::Signal),
 		2 => (0u8..7).prop_map(TagSpec::NamedSignal),
+		2 => prop_oneof![0i32..70, any::<i32>()].prop_map(TagSpec::CustomSignal),
+		1 => prop_oneof![0i32..70, any::<i32>()].prop_map(TagSpec::ExitCustomSignal),
 		1 => Just(TagSpec::CompletionNone),
 		1 => Just(TagSpec::Success),
 		1 => Just(TagSpec::Continued),
@@ -590,6 +601,10 @@ pub fn check(e: &Engine) {
 		singles.push(EventSpec { tags: vec![TagSpec::ExitSignal(n)], metadata: vec![] });
 		singles.push(EventSpec { tags: vec![TagSpec::Signal(n)], metadata: vec![] });
 	}
+	for n in -1..=70 {
+		singles.push(EventSpec { tags: vec![TagSpec::CustomSignal(n)], metadata: vec![] });
+		singles.push(EventSpec { tags: vec![TagSpec::ExitCustomSignal(n)], metadata: vec![] });
+	}
 	for i in 0..6u8 {
 		singles.push(EventSpec { tags: vec![TagSpec::Source(i)], metadata: vec![] });
 	}
@@ -598,7 +613,7 @@ pub fn check(e: &Engine) {
 	}
 	e.enumerate(
 		"every-kind",
-		"every filesystem event kind (41), first-class signal, source and file type as a single-tag event: round trip + documented spelling",
+		"every filesystem event kind (41), first-class signal, directly constructed Custom(n) for n in -1..=70 (as a signal and as an exit signal), source and file type as a single-tag event: round trip + documented spelling",
 		true,
 		singles,
 		&run_event,
